@@ -12,6 +12,9 @@ Oracle per run (the property's outcome set):
   * no process carrying the per-case tag in its environment is alive 5 s after the VM exited.
 Controls (no fault; also fragmented writes and a peer that ignores SHUTDOWN/EOF) must end with exit 0 and the
 complete output.
+Kinds: the stand-in's process kinds include close_*_alive (pipe closed but the peer keeps running until it is
+signalled - the orphan clause for "closes one or both pipes"); its message kinds include complete-but-garbled
+values (string length 2^32-1, array count 2^32-1 with an element, 500 000 nested arrays).
 
 Programs: A = four libc calls with int results (strlen, labs, toupper, atoi), VM work between the calls so that
 a peer that died after a reply has been reaped when the next call starts (relaunch path).  B = two calls of an
@@ -58,6 +61,8 @@ class Prog:
 
     def prefix(self, j):
         """stdout up to and including the 'before' line of call j (1-based)."""
+        if j > self.ncalls:
+            return self.expected        # fault after the last call: nothing of the output may be missing
         m = self.before[j - 1] + "\n"
         return self.expected[: self.expected.index(m) + len(m)]
 
